@@ -92,6 +92,8 @@ def contracts(T: Types, reg: Registry):
               "app": ObjT("RunnerApp"), "shared_status": MapT(STR, Atom("ProcStatus")), "runner_cache": Atom("Cache"), "stop_event": Atom("Event")}
     reg.add_shape(Shape("PersistentProcessRunner", fields=dict(fields), cls=(PPR, "PersistentProcessRunner")))
     reg.add_shape(Shape("MultiThreadRunner", fields=dict(fields), cls=(MTR, "MultiThreadRunner")))
+    for shp in ("PersistentProcessRunner", "MultiThreadRunner"):
+        reg.shapes[shp].auto_fields = True      # further bookkeeping attributes of the class are "don't care" fields of their annotated type
     W, W0 = (lambda c: c.f("child_runner_ids")), (lambda c: c.old("child_runner_ids"))
     out = []
 
